@@ -9,7 +9,7 @@ use std::process::Command;
 
 use tyme4rs::tyme::lunar::verif_hooks as hooks;
 use tyme4rs::tyme::lunar::{LunarDay, LunarHour, LunarMonth};
-use tyme4rs::tyme::Culture;
+use tyme4rs::tyme::{Culture, Tyme};
 
 use crate::lib_util::*;
 use crate::queries::*;
@@ -310,6 +310,38 @@ fn lazy(ctx: &Ctx) -> usize {
             }
             sink.put(Ev::new("lz").i("s", 1).i("t", 1).a("v", &[y, m, dd, hh]).a("o", &order).a("got", &got).a("want", &want).done());
           }
+        }
+      }
+    }
+  }
+  // query, then step, then query the stepped value: the answers of x.next(n) must not depend on what x had
+  // already been asked (per-value memos must not travel with a stepped value)
+  let nsteps = if ctx.quick() { 40 } else { 800 };
+  for _ in 0..nsteps {
+    let y = rng.range(260, 9990);
+    let m = rng.range(1, 12);
+    let dd = rng.range(1, 29);
+    let hh = rng.range(0, 23);
+    for g1 in 0..6i64 {
+      for (si, n) in [-3i64, 1, 2, 5, 11, 13, -13, 30].iter().enumerate() {
+        let g2 = (g1 + si as i64) % 6;
+        // LunarHour: warm value asked g1 first, cold value not asked anything
+        let warm = catch(|| LunarHour::from_ymd_hms(y as isize, m as isize, dd as usize, hh as usize, 30, 15));
+        let cold = catch(|| LunarHour::from_ymd_hms(y as isize, m as isize, dd as usize, hh as usize, 30, 15));
+        if let (Some(w), Some(c)) = (warm, cold) {
+          let a1 = hgetter(&w, g1);
+          let got: Vec<i64> = catch(|| w.next(*n as isize)).map(|x| hgetter(&x, g2)).unwrap_or(vec![-999]);
+          let want: Vec<i64> = catch(|| c.next(*n as isize)).map(|x| hgetter(&x, g2)).unwrap_or(vec![-999]);
+          let _ = a1;
+          sink.put(Ev::new("lz").i("s", 1).i("t", 3).a("v", &[y, m, dd, hh]).a("o", &[g1, *n, g2]).a("got", &got).a("want", &want).done());
+        }
+        let warm = catch(|| LunarDay::from_ymd(y as isize, m as isize, dd as usize));
+        let cold = catch(|| LunarDay::from_ymd(y as isize, m as isize, dd as usize));
+        if let (Some(w), Some(c)) = (warm, cold) {
+          let _ = getter(&w, g1);
+          let got: Vec<i64> = catch(|| w.next(*n as isize)).map(|x| getter(&x, g2)).unwrap_or(vec![-999]);
+          let want: Vec<i64> = catch(|| c.next(*n as isize)).map(|x| getter(&x, g2)).unwrap_or(vec![-999]);
+          sink.put(Ev::new("lz").i("s", 1).i("t", 2).a("v", &[y, m, dd, 0]).a("o", &[g1, *n, g2]).a("got", &got).a("want", &want).done());
         }
       }
     }
